@@ -4,7 +4,8 @@ package db
 
 // C09 binding: schedule-forcing replay of TLC behaviours of specs/Import on a real database (AutoImport off) over a LeakyBucket.
 //
-// Environment played by the harness: external writes go straight to the collection's datastore (SetRaw / Delete); the
+// Environment played by the harness: external writes go straight to the collection's datastore (WriteCas / Delete / SetXattrs
+// for the user xattr); the
 // mutation feeds are CAPTURED - a harness-owned DCP client (full content, what the import feed gets) and the database's own
 // caching feed, whose callback is intercepted for the test documents (xattr-only content, what the change cache gets) - and
 // delivered when, as often and in whatever order the behaviour says: importListener.ProcessFeedEvent(event i) and
@@ -73,6 +74,7 @@ type vC09Harness struct {
 	seqRank map[uint64]int
 	verRank map[uint64]int
 	crcID   map[string]int
+	uxID    map[string]int
 	nExtB   int
 	sgRev   map[int]string
 	pF      *vC09Proc
@@ -136,12 +138,13 @@ func (h *vC09Harness) gate(key string) {
 }
 
 const vC09Prefix = "c09"
+const vC09UserXattr = "c09ux"
 
 func vC09NewHarness(t *testing.T) *vC09Harness {
 	h := &vC09Harness{t: t, events: make(chan string, 8), seenF: map[string]bool{}, seenX: map[string]bool{}}
 	tb := base.GetTestBucket(t)
 	lb := base.NewLeakyBucket(tb, base.LeakyBucketConfig{UpdateCallback: h.gate})
-	h.db, h.ctx = SetupTestDBForBucketWithOptions(t, lb, DatabaseContextOptions{AllowConflicts: base.Ptr(false)})
+	h.db, h.ctx = SetupTestDBForBucketWithOptions(t, lb, DatabaseContextOptions{AllowConflicts: base.Ptr(false), UserXattrKey: vC09UserXattr})
 	col, ctx := GetSingleDatabaseCollectionWithUser(h.ctx, t, h.db)
 	h.ctx = ctx
 	h.col = &DatabaseCollectionWithUser{DatabaseCollection: col.DatabaseCollection} // admin
@@ -286,6 +289,7 @@ func vC09BodyID(b []byte) int {
 }
 
 func vC09ExtBody(n int) []byte { return []byte(fmt.Sprintf(`{"x":%d}`, n)) }
+func vC09UxVal(n int) []byte   { return []byte(fmt.Sprintf(`{"u":%d}`, n)) }
 func vC09SGBody(k int) []byte  { return []byte(fmt.Sprintf(`{"s":%d}`, k)) }
 
 func (h *vC09Harness) casOf(c uint64) int {
@@ -349,9 +353,9 @@ func (h *vC09Harness) snapshot() vObj {
 	if nf != nx {
 		h.t.Fatalf("VERIF-FATAL C09: feeds captured %d / %d mutations of %s", nf, nx, h.key)
 	}
-	doc := vObj{"cas": nf, "body": 0, "del": true}
-	meta := vObj{"has": false, "syncCas": 0, "crc": 0, "revs": []vObj{}, "cur": 0, "seq": 0, "cv": 0, "mouCas": 0, "mouPcas": 0}
-	body, xattrs, cas, err := h.rawStore.GetWithXattrs(h.ctx, h.key, []string{base.SyncXattrName, base.VvXattrName, base.MouXattrName})
+	doc := vObj{"cas": nf, "body": 0, "del": true, "ux": 0}
+	meta := vObj{"has": false, "syncCas": 0, "crc": 0, "ucrc": 0, "revs": []vObj{}, "cur": 0, "seq": 0, "cv": 0, "mouCas": 0, "mouPcas": 0}
+	body, xattrs, cas, err := h.rawStore.GetWithXattrs(h.ctx, h.key, []string{base.SyncXattrName, base.VvXattrName, base.MouXattrName, vC09UserXattr})
 	if err != nil && !base.IsDocNotFoundError(err) {
 		h.t.Fatalf("VERIF-FATAL C09: reading %s: %v", h.key, err)
 	}
@@ -361,6 +365,13 @@ func (h *vC09Harness) snapshot() vObj {
 		}
 		if body != nil {
 			doc["body"], doc["del"] = vC09BodyID(body), false
+		}
+		if rawUx := xattrs[vC09UserXattr]; len(rawUx) > 0 {
+			var u map[string]any
+			doc["ux"] = -1
+			if err := base.JSONUnmarshal(rawUx, &u); err == nil && u["u"] != nil {
+				doc["ux"] = vInt(u["u"])
+			}
 		}
 		if raw := xattrs[base.SyncXattrName]; len(raw) > 0 {
 			var sd SyncData
@@ -375,6 +386,12 @@ func (h *vC09Harness) snapshot() vObj {
 			} else {
 				meta["crc"] = -1
 				h.strange = append(h.strange, "unknown checksum "+sd.Crc32c)
+			}
+			if id, ok := h.uxID[sd.Crc32cUserXattr]; ok {
+				meta["ucrc"] = id
+			} else {
+				meta["ucrc"] = -1
+				h.strange = append(h.strange, "unknown user xattr checksum "+sd.Crc32cUserXattr)
 			}
 			// revision ids -> creation order (parents first)
 			ids := make([]string, 0, len(sd.History))
@@ -546,6 +563,11 @@ func (h *vC09Harness) step(a string, i int) string {
 		if _, err := h.rawStore.WriteCas(h.ctx, h.key, 0, cas, vC09ExtBody(i), 0); err != nil {
 			return "ExtSet: " + err.Error()
 		}
+	case "ExtUx":
+		h.uxID[base.Crc32cHashString(vC09UxVal(i))] = i
+		if _, err := h.rawStore.SetXattrs(h.ctx, h.key, map[string][]byte{vC09UserXattr: vC09UxVal(i)}); err != nil {
+			return "ExtUx: " + err.Error()
+		}
 	case "ExtDelete":
 		if err := h.rawStore.Delete(h.ctx, h.key); err != nil {
 			return "ExtDelete: " + err.Error()
@@ -646,6 +668,7 @@ func (h *vC09Harness) replay(tw *vTraceWriter, bi int, b vC09Beh) (aborted bool)
 	h.casIdx, h.revIdx, h.revBody, h.revs = map[uint64]int{}, map[string]int{}, map[string]int{}, nil
 	h.seqRank, h.verRank, h.sgRev = map[uint64]int{}, map[uint64]int{}, map[int]string{}
 	h.crcID = map[string]int{base.DeleteCrc32c: 0}
+	h.uxID = map[string]int{"": 0}
 	h.nExtB, h.wk, h.fedSet, h.inF, h.strange = 0, 0, map[int]bool{}, 0, nil
 	h.pF = &vC09Proc{name: "feed import", st: "idle", release: make(chan struct{})}
 	h.pG = &vC09Proc{name: "read", st: "idle", release: make(chan struct{})}
